@@ -302,6 +302,10 @@ async def _run_script(ctx, inv, ev, script):
         elif op == 'obs_all':
             for lab, e in list(ctx.events.items()):
                 ctx.obs(st[1], ev=e)
+        elif op == 'await_if':
+            if st[1] in ctx.events:
+                await inv.wait(ctx.events[st[1]])
+                ctx.obs('after_await_ext', ev=ctx.events[st[1]])
         elif op == 'poll_if':
             # like poll, but silently skipped if the event does not exist (yet)
             await inv.sleep(_val(ctx, st[1]))
